@@ -30,7 +30,7 @@ ASSUMPTIONS = ["an hour's month is its local calendar month in the index's timez
                "bin 0 is 'filled' with min(T, first endpoint) (it is unbounded below), the last bin with max(T - last endpoint, 0)"]
 REQUIRED_REACH = {"post.segment_time_series": 40, "post.bin_features": 64, "post.time_features": 10, "post.occupancy_feature": 10,
                   "post.prediction_feature_processor": 90, "boundary.routing": 16, "boundary.routing_partial_model": 8, "boundary.routing_month_in_two_runs": 8, "history.same_instants_on_another_wall_clock": 60, "history.same_end_points_and_length_another_interior": 40, "clause.partition_rows": 100000,
-                  "clause.bin_cells": 10000, "clause.how_values_168": 1}
+                  "clause.bin_cells": 10000, "clause.how_values_168": 1, "post.fit_model_segment": 30, "clause.half_weight_rows_entering_a_fit": 20000, "data.month_lacking_hours_of_the_week_its_neighbours_have": 3}
 REQUIRED_REACH_THOROUGH = {"post.fit_feature_processor": 12, "boundary.real_fit_routing": 1, "repo_tests.post.segment_time_series": 5, "repo_tests.post.bin_features": 5}
 ENDPOINTS = [30, 45, 55, 65, 75, 90]
 MONTHS = ["jan", "feb", "mar", "apr", "may", "jun", "jul", "aug", "sep", "oct", "nov", "dec"]
@@ -222,6 +222,34 @@ def ffp_post(segment_name, segmented_data, occupancy_lookup, occupied_temperatur
     return True
 
 
+def seg_usable(segment_name, segment_data):
+    """OLD snapshot: the rows a weighted fit can use (every formula column present) and their total weight, taken BEFORE the call"""
+    cols = ["meter_value", "hour_of_week", "weight"] + [c for c in segment_data.columns if c.startswith("bin")]
+    ok = segment_data[cols].notna().all(axis=1) & (segment_data["weight"] > 0)
+    w = segment_data.loc[ok, "weight"].to_numpy(dtype=float)
+    return dict(n=int(ok.sum()), wsum=float(w.sum()), n_half=int((w == 0.5).sum()), n_full=int((w == 1.0).sum()))
+
+
+def segfit_post(segment_name, segment_data, result, OLD):
+    I.reach("post.fit_model_segment")
+    u = OLD.usable
+    mdl = getattr(result, "model", None)
+    if mdl is None:
+        if u["n"] > 0:
+            add("segment-with-usable-rows-not-fitted", "segment %r: %d usable rows (total weight %.1f) but no model was fitted" % (segment_name, u["n"], u["wsum"]))
+        return True
+    I.reach("clause.rows_entering_the_weighted_fit", u["n"])
+    if u["n_half"]:
+        I.reach("clause.half_weight_rows_entering_a_fit", u["n_half"])
+    wv = np.asarray(mdl.weights, dtype=float)
+    n_fit = int((wv > 0).sum())                     # rows of weight 0 may ride along: they do not influence a weighted fit
+    w_fit = float(wv.sum())
+    if n_fit != u["n"] or abs(w_fit - u["wsum"]) > 1e-9 * max(1.0, u["wsum"]):
+        add("rows-dropped-from-a-month-models-weighted-fit", "segment %r: %d usable rows of total weight %.1f (%d at full, %d at half weight) were handed over, %d rows of total weight %.1f entered the fit" % (
+            segment_name, u["n"], u["wsum"], u["n_full"], u["n_half"], n_fit, w_fit), segment=segment_name)
+    return True
+
+
 _done = False
 
 
@@ -243,6 +271,10 @@ def setup_worker():
         dec = icontract.ensure(post, error=ContractBroken)(orig)
         setattr(mod, name, dec)
         I.patch_everywhere(orig, dec)
+    orig = CM.fit_caltrack_hourly_model_segment
+    dec = icontract.snapshot(seg_usable, name="usable")(icontract.ensure(segfit_post, error=ContractBroken)(orig))
+    CM.fit_caltrack_hourly_model_segment = dec
+    I.patch_everywhere(orig, dec)
     _done = True
 
 
@@ -392,6 +424,19 @@ def fit_case(spec, keys):
     rng = rng_for(spec["seed"], ID, 3, spec["batch"])
     tz = spec["tz"]
     df = synth_hourly(tz=tz, start="2019-01-01", days=365, seed=rng)
+    hole = spec.get("hole")
+    if hole:
+        # a month that has usable data but lacks some hours of the week entirely, while its neighbours have them
+        mth = int(rng.integers(2, 12))
+        inm = df.index.month.values == mth
+        if hole == "weekends-of-a-month":
+            df.loc[inm & (df.index.dayofweek.values >= 5), "observed"] = np.nan            # logger offline on the weekends of one month
+        elif hole == "month-with-five-valid-days":
+            keep = np.isin(df.index.day.values, [3, 4, 5, 6, 7])
+            df.loc[inm & ~keep, "observed"] = np.nan
+        elif hole == "weekly-maintenance-hours":
+            df.loc[inm & (df.index.dayofweek.values == 2) & (df.index.hour.values >= 8) & (df.index.hour.values < 12), "observed"] = np.nan
+        I.reach("data.month_lacking_hours_of_the_week_its_neighbours_have")
     m = CTModel(settings=None).fit(CTB(df.copy(), is_electricity_data=True))
     # replace the twelve fitted month models by decodable ones, keep the fitted occupancy / bin tables: real routing tables
     inner = m.model.model
@@ -435,6 +480,8 @@ ZONES_T = ZONES_Q + ["Europe/London", "America/Los_Angeles", "Europe/Berlin", "P
 def gen_cases(tier, seed):
     zones = ZONES_Q if tier == "quick" else ZONES_T
     cases = [dict(kind="calendar", tz=z, zi=i, win=w) for i, z in enumerate(zones) for w in range(4)] + [dict(kind="bins")]      # one worker per (zone, window)
+    holes = ["weekends-of-a-month", "month-with-five-valid-days", "weekly-maintenance-hours"]
+    cases += [dict(kind="fit", tz=["America/Chicago", "UTC", "Australia/Sydney", "Europe/Berlin"][i % 4], batch=100 + i, hole=holes[i % 3], timeout=3000) for i in range(3 if tier == "quick" else 9)]
     if tier == "thorough":
         cases += [dict(kind="fit", tz=z, batch=i, timeout=3000) for i, z in enumerate(["America/Chicago", "Australia/Sydney"])]
         cases.append(dict(kind="repo-tests", timeout=3000))
